@@ -254,6 +254,36 @@ def run(chk):
                 chk.known('C09-xpath1-substring-non-numeric-position', {'expr': expr, 'impl': got, 'spec (libxml2 agrees)': want})
             else:
                 chk.violation('impl-vs-spec', {'parser': 'XPath1Parser', 'expr': expr}, {'impl': got, 'spec': want})
+    # ---- XPath 1.0: every string function of the core library on arguments of the four object types (strings, numbers, booleans,
+    # node-sets with 0 / 1 / 2 nodes) against libxml2 (the oracle named by the property); the two recorded findings are kept out
+    # (infinities as arguments, strings as substring positions)
+    import math as _m
+    lroot2 = LE.fromstring('<r a="1"><n>42</n><n>-1.5</n><s>abc</s><e/><m> 7 </m>text</r>')
+    XA = ["1", "0", "-1.5", "0.5", "12", "'a'", "''", "'12'", "' 3 '", "'abc'", "'b c'", "true()", "false()", "/r/n", "/r/s", "/r/e", "/r/nothing", "/r/@a", "/r/m", "/r/text()", "/r/*", "2.5", "3"]
+    XNUM = ["1", "0", "-1.5", "0.5", "2.5", "3", "true()", "false()", "/r/n", "/r/nothing", "/r/@a", "/r/m", "12"]
+    calls1 = [f'{f}({a})' for f in ('string', 'string-length', 'normalize-space') for a in XA]
+    calls1 += [f'{f}({a}, {b})' for f in ('concat', 'starts-with', 'contains', 'substring-before', 'substring-after') for a in XA for b in XA]
+    calls1 += [f'translate({a}, {b}, {c})' for a in ("'abcdef'", "/r/s", "12345", "/r/nothing") for b in XA for c in XA]
+    calls1 += [f'substring({a}, {b})' for a in XA for b in XNUM] + [f'substring({a}, {b}, {c})' for a in ("'abcdef'", "/r/s", "12345", "true()") for b in XNUM for c in XNUM]
+    calls1 += [f'concat({a}, {b}, {c})' for a in XA[::3] for b in XA[1::3] for c in XA[2::3]]
+    if quick:
+        calls1 = rng.sample(calls1, 1500)
+    for expr in calls1:
+        chk.evaluations += 1
+        chk.count('xpath1-libxml2-sweep')
+        want = lroot2.xpath(expr)
+        try:
+            got = select(lroot2, expr, parser=XPath1Parser)
+        except ElementPathError as ex:
+            got = 'error ' + (ex.code or '').split(':')[-1]
+        if isinstance(want, float) and isinstance(got, (int, float)) and not isinstance(got, bool):
+            same_ = (_m.isnan(want) and isinstance(got, float) and _m.isnan(got)) or float(got) == want
+        else:
+            same_ = got == want and isinstance(got, bool) == isinstance(want, bool)
+        if not same_:
+            chk.violation('impl-vs-spec', {'parser': 'XPath1Parser', 'expr': expr, 'document': '<r a="1"><n>42</n><n>-1.5</n><s>abc</s><e/><m> 7 </m>text</r>'},
+                          {'impl': repr(got)[:200], 'libxml2': repr(want)[:200]})
+        chk.nontrivial.add('xp1sweep:' + expr)
     # round trip codepoints-to-string(string-to-codepoints(s)) = s and string-length in code points
     for _ in range(100 if quick else 5000):
         s = rstr(8, 'ab\U0001F600é́\t')
